@@ -405,3 +405,259 @@ func describeParamWrites(w map[*ssa.Parameter]string) []string {
 	sort.Strings(out)
 	return out
 }
+
+// pooledEscapeRules: memory of an object that a function takes from a pool and
+// puts back itself must not be reachable from what the function returns: after
+// the Put the next user of the pool overwrites it. Taint: the pooled object,
+// results of calls that get it (or something tainted) as receiver or argument
+// and can carry a reference, slices / fields / elements of tainted values,
+// cells a tainted value was stored into. Sink: a returned value.
+func pooledEscapeRules(c *Ctx, prop string) {
+	rule := prop + ".pooled-memory-escape"
+	c.R.Rule(rule, 8, "nothing a function returns points into a pooled object that the same function puts back")
+	getters := map[string]string{
+		"github.com/gobwas/pool/pbytes.GetLen":    "github.com/gobwas/pool/pbytes.Put",
+		"github.com/gobwas/pool/pbytes.Get":       "github.com/gobwas/pool/pbytes.Put",
+		"github.com/gobwas/pool/pbytes.GetCap":    "github.com/gobwas/pool/pbytes.Put",
+		"github.com/gobwas/pool/pbufio.GetReader": "github.com/gobwas/pool/pbufio.PutReader",
+		"github.com/gobwas/pool/pbufio.GetWriter": "github.com/gobwas/pool/pbufio.PutWriter",
+		"(*sync.Pool).Get":                        "(*sync.Pool).Put",
+		"(*github.com/gobwas/pool.Pool).Get":      "(*github.com/gobwas/pool.Pool).Put",
+	}
+	// reviewed: functions whose results are derived from pooled memory through copying selectors;
+	// the copies are decided by other rules of the same check
+	reviewed := map[string]string{
+		"ws.(Upgrader).Upgrade": "the Handshake is filled from the pooled reader's lines through copying selectors (decided by handshake-buffer-lifetime and selection-copies)",
+		"ws.(Dialer).Upgrade":   "same on the client side; the returned *bufio.Reader is handed to the caller only when it still holds data and is then not put back (decided by the dialer fold)",
+	}
+	n := 0
+	for _, fn := range c.P.AllModuleFuncs() {
+		if fn.Parent() != nil {
+			continue
+		}
+		for _, b := range fn.Blocks {
+			for _, in := range b.Instrs {
+				call, ok := in.(*ssa.Call)
+				if !ok {
+					continue
+				}
+				callee := call.Call.StaticCallee()
+				if callee == nil {
+					continue
+				}
+				put, isGet := getters[callee.String()]
+				if !isGet {
+					continue
+				}
+				if !putsBack(fn, call, put) {
+					continue // ownership leaves the function with the object
+				}
+				n++
+				name := astFuncName(fn)
+				key := rule + "/" + name + ":" + callee.Name()
+				if how := escapesByReturn(fn, call); how != "" {
+					if why, ok := reviewed[name]; ok {
+						c.R.OK(rule, key, c.P.Pos(call.Pos()), "reviewed: "+why)
+					} else {
+						c.R.Fail(rule, key, c.P.Pos(call.Pos()), "the object taken from the pool here is put back by "+name+", but "+how+": the caller keeps a view of memory that the next user of the pool overwrites")
+					}
+				} else {
+					c.R.OK(rule, key, c.P.Pos(call.Pos()), "no returned value is derived from the pooled object")
+				}
+			}
+		}
+	}
+	c.R.Sites += n
+}
+
+// putsBack reports whether fn (or a closure it defers) calls put on a value derived from v.
+func putsBack(fn *ssa.Function, v *ssa.Call, put string) bool {
+	t := taintFrom(fn, v)
+	found := false
+	var scan func(f *ssa.Function, bound map[ssa.Value]bool)
+	scan = func(f *ssa.Function, bound map[ssa.Value]bool) {
+		for _, b := range f.Blocks {
+			for _, in := range b.Instrs {
+				ci, ok := in.(ssa.CallInstruction)
+				if !ok {
+					continue
+				}
+				cc := ci.Common()
+				if sc := cc.StaticCallee(); sc != nil && sc.String() == put {
+					for _, a := range cc.Args {
+						if t[a] || bound[a] {
+							found = true
+						}
+						if u, ok := a.(*ssa.UnOp); ok && (t[u.X] || bound[u.X]) {
+							found = true
+						}
+					}
+				}
+				if mc, ok := cc.Value.(*ssa.MakeClosure); ok {
+					if cf, ok := mc.Fn.(*ssa.Function); ok {
+						nb := map[ssa.Value]bool{}
+						for i, bv := range mc.Bindings {
+							if (t[bv] || bound[bv]) && i < len(cf.FreeVars) {
+								nb[cf.FreeVars[i]] = true
+							}
+						}
+						if len(nb) > 0 {
+							scan(cf, nb)
+						}
+					}
+				}
+			}
+		}
+	}
+	scan(fn, nil)
+	return found
+}
+
+// taintFrom computes the values of fn that may point into the object v.
+func taintFrom(fn *ssa.Function, v ssa.Value) map[ssa.Value]bool {
+	t := map[ssa.Value]bool{v: true}
+	for changed := true; changed; {
+		changed = false
+		add := func(x ssa.Value) {
+			if x != nil && !t[x] {
+				t[x] = true
+				changed = true
+			}
+		}
+		for _, b := range fn.Blocks {
+			for _, in := range b.Instrs {
+				switch x := in.(type) {
+				case *ssa.TypeAssert:
+					if t[x.X] {
+						add(x)
+					}
+				case *ssa.Extract:
+					if t[x.Tuple] && typeHasRefs(x.Type(), 0) {
+						add(x)
+					}
+				case *ssa.Slice:
+					if t[x.X] {
+						add(x)
+					}
+				case *ssa.FieldAddr:
+					if t[x.X] {
+						add(x)
+					}
+				case *ssa.IndexAddr:
+					if t[x.X] {
+						add(x)
+					}
+				case *ssa.Field:
+					if t[x.X] && typeHasRefs(x.Type(), 0) {
+						add(x)
+					}
+				case *ssa.Index:
+					if t[x.X] && typeHasRefs(x.Type(), 0) {
+						add(x)
+					}
+				case *ssa.ChangeType:
+					if t[x.X] {
+						add(x)
+					}
+				case *ssa.ChangeInterface:
+					if t[x.X] {
+						add(x)
+					}
+				case *ssa.MakeInterface:
+					if t[x.X] {
+						add(x)
+					}
+				case *ssa.Convert:
+					// []byte -> string copies; string -> []byte copies
+					if t[x.X] && typeHasRefs(x.Type(), 0) {
+						if _, isSlice := x.X.Type().Underlying().(*types.Slice); !isSlice {
+							add(x)
+						}
+					}
+				case *ssa.Phi:
+					for _, e := range x.Edges {
+						if t[e] {
+							add(x)
+						}
+					}
+				case *ssa.UnOp:
+					if x.Op.String() == "*" && t[x.X] && typeHasRefs(x.Type(), 0) {
+						add(x)
+					}
+				case *ssa.Store:
+					if t[x.Val] {
+						// the cell (and the object the cell belongs to) now holds a view
+						add(x.Addr)
+						base := x.Addr
+						for {
+							switch a := base.(type) {
+							case *ssa.FieldAddr:
+								base = a.X
+								add(base)
+								continue
+							case *ssa.IndexAddr:
+								base = a.X
+								add(base)
+								continue
+							}
+							break
+						}
+					}
+				case *ssa.Call:
+					if !typeHasRefs(x.Type(), 0) {
+						continue
+					}
+					cc := x.Common()
+					if bi, ok := cc.Value.(*ssa.Builtin); ok {
+						if bi.Name() == "append" {
+							for _, a := range cc.Args {
+								if t[a] {
+									add(x)
+								}
+							}
+						}
+						continue
+					}
+					if callee := cc.StaticCallee(); callee != nil && freshResult[callee.String()] {
+						continue
+					}
+					if cc.IsInvoke() && t[cc.Value] {
+						add(x)
+					}
+					for _, a := range cc.Args {
+						if t[a] {
+							add(x)
+						}
+					}
+				}
+			}
+		}
+	}
+	return t
+}
+
+// escapesByReturn describes a returned value of fn that is tainted by v ("" if none).
+func escapesByReturn(fn *ssa.Function, v *ssa.Call) string {
+	t := taintFrom(fn, v)
+	for _, b := range fn.Blocks {
+		for _, in := range b.Instrs {
+			ret, ok := in.(*ssa.Return)
+			if !ok {
+				continue
+			}
+			for i, rv := range ret.Results {
+				if !typeHasRefs(rv.Type(), 0) || isErrorT(rv.Type()) {
+					continue
+				}
+				if t[rv] {
+					return fmt.Sprintf("result #%d (%s) is derived from it", i+1, types.TypeString(rv.Type(), func(p *types.Package) string { return p.Name() }))
+				}
+			}
+		}
+	}
+	return ""
+}
+
+func isErrorT(t types.Type) bool {
+	return types.Identical(t, types.Universe.Lookup("error").Type())
+}
